@@ -712,7 +712,9 @@ def run_native(pid, n, scratch, tier, repo, seed):
             r["reason"] = "native build failed: " + (se + so)[-1200:]
             return r
         args = n.get("args", {}).get(tier, [])
-        rc, so, se, _s, to = sh([exe] + [str(a) for a in args] + [str(seed)], timeout=n.get("timeout", 900))
+        env = dict(os.environ)
+        env.setdefault("ASAN_OPTIONS", "detect_leaks=0")
+        rc, so, se, _s, to = sh([exe] + [str(a) for a in args] + [str(seed)], timeout=n.get("timeout", 900), env=env)
         r["cmd"] = " ".join(cmd) + " && ./nat " + " ".join(str(a) for a in args)
         if to:
             r["status"] = "undecided"
